@@ -31,7 +31,8 @@ RowInit ==
         \/ /\ Pairs
            /\ \E f, g \in FNames : f # g /\ \E v \in Factors[f], w \in Factors[g] : row = [Default EXCEPT ![f] = v, ![g] = w]
 Init == IF Mode = "directives" THEN row \in DirectiveInstances(MaxDeviations)
-        ELSE IF Mode = "metadata" THEN row \in MetadataTextCases ELSE RowInit
+        ELSE IF Mode = "metadata" THEN row \in MetadataTextCases
+        ELSE IF Mode = "assets" THEN row \in AssetLiteralCases ELSE RowInit
 Next == UNCHANGED row
 EmitCase == PrintT(<<"CASE", ToJson(row)>>)
 =============================================================================
